@@ -240,7 +240,7 @@ func QualifiedFileName(fileName, parentFileName string, resolveExtensions []stri
 	for _, ext := range exts {
 		qualified := fileName + ext
 
-		if !fileExists(qualified) {
+		if !fileExists(qualified) || isDirectory(qualified) {
 			continue
 		}
 
@@ -261,6 +261,15 @@ func fileExists(fileName string) bool {
 	_, err := os.Stat(fileName)
 
 	return err == nil || !os.IsNotExist(err)
+}
+
+// isDirectory reports whether fileName is known to be a directory: a directory
+// is never a schema, so it must not keep the resolve extensions from being
+// tried (./common next to common/ and common.yaml).
+func isDirectory(fileName string) bool {
+	info, err := os.Stat(fileName)
+
+	return err == nil && info.IsDir()
 }
 
 func toExtensionSet(items []string) map[string]bool {
